@@ -23,6 +23,9 @@ func (ft *funcTrans) valOf(v ssa.Value) *Val {
 		}
 		return &Val{T: w.constTerm(c.Value, c.Type())}
 	case *ssa.Global:
+		if isSentinelError(c.Pkg.Pkg.Path(), c.Name(), c.Type().(*types.Pointer).Elem()) {
+			return &Val{L: &Loc{Kind: LSentinel, Heap: c.Pkg.Pkg.Path() + "." + c.Name(), Root: w.sortOf(c.Type().(*types.Pointer).Elem()), Sort: w.sortOf(c.Type().(*types.Pointer).Elem())}}
+		}
 		s := w.sortOf(c.Type().(*types.Pointer).Elem())
 		h := w.globalHeap(c.Pkg.Pkg, c.Name(), s)
 		return &Val{L: &Loc{Kind: LGlobal, Heap: h, Root: s, Sort: s}}
@@ -130,6 +133,9 @@ func (ft *funcTrans) readRoot(st *State, l *Loc) string {
 		return fmt.Sprintf("(select %s %s)", w.heapSym(st, l.Heap), l.Base)
 	case LGlobal:
 		return w.heapSym(st, l.Heap)
+	case LSentinel:
+		i := strings.LastIndex(l.Heap, ".")
+		return w.sentinelTerm(l.Heap[:i], l.Heap[i+1:]).S
 	case LLocal:
 		sym, ok := st.locals[l.LocalKey]
 		if !ok {
@@ -449,8 +455,15 @@ func (ft *funcTrans) instr(in ssa.Instruction) {
 		r := ft.freshRef(st)
 		ft.define(x, Term{r, w.sortOf(x.Type())})
 	case *ssa.Send:
-		// ghost histories not modelled in this version
+		ft.sendReqs(ft.termOf(x.X), x.Pos())
+		ft.asyncPoint()
 	case *ssa.Select:
+		for _, stt := range x.States {
+			if stt.Dir == types.SendOnly && stt.Send != nil {
+				ft.sendReqs(ft.termOf(stt.Send), stt.Pos)
+			}
+		}
+		ft.asyncPoint()
 		ft.havocValue(x, "")
 		tup := ft.vals[x].Tup
 		n := len(x.States)
@@ -570,6 +583,7 @@ func (ft *funcTrans) unop(x *ssa.UnOp) {
 			ft.define(x, Term{"(- (- " + t.S + ") 1)", t.Sort})
 		}
 	case token.ARROW:
+		ft.asyncPoint()
 		ft.havocValue(x, "")
 	default:
 		panic(unsupportedErr("unary op " + x.Op.String()))
@@ -754,3 +768,33 @@ func (ft *funcTrans) next(x *ssa.Next) {
 }
 
 var _ = constant.MakeBool
+
+// sendReqs: obligations on a value about to be sent on a channel.
+func (ft *funcTrans) sendReqs(v Term, pos token.Pos) {
+	if ft.c == nil {
+		return
+	}
+	for k, sr := range ft.c.SendReqs {
+		ec := ft.localCtx(ft.curSt)
+		ec.env["sent"] = v
+		t := ec.evalBool(sr.E)
+		ft.nAsserts++
+		o := ft.obligation("sendreq", fmt.Sprintf("send%d.sendreq%d", ft.nAsserts, k+1), sr.Src, t.S)
+		o.Where = posStr(ft.p.SSA.Fset, pos)
+	}
+}
+
+// asyncPoint: a channel operation is a point where other goroutines are
+// observed; ghost state declared async (e.g. "the context has been
+// cancelled") may have changed.
+func (ft *funcTrans) asyncPoint() {
+	w := ft.w
+	for name, srt := range w.P.Spec.Ghosts {
+		if !w.P.Spec.Async[name] {
+			continue
+		}
+		h := "G_ghost." + name
+		w.heapSorts[h] = srt
+		ft.newHeapVersion(ft.curSt, h)
+	}
+}
